@@ -232,6 +232,7 @@ fn gen_id_ref(rng: &mut Rng) -> IdRef {
     6 => IdRef::KnownTxIndex(rng.below(64) as u32, rng.below(4) as u32),
     7 => IdRef::Missing(rng.below(1000) as u32),
     8 => IdRef::RawBytes(rng.bytes(rng.clone().usize(40))),
+    9 => IdRef::Own(rng.below(4) as u32),
     _ => IdRef::Known(0),
   }
 }
